@@ -123,6 +123,23 @@ def container_method(I, fn, args, kwargs):
         key = concretize(payload(args[0]))
         if isinstance(key, SStr) and isinstance(obj, dict) and name == "get":
             return I.dict_lookup(obj, key, default=args[1] if len(args) > 1 else None)
+        if isinstance(key, SInt) and isinstance(obj, dict) and name in ("get", "__getitem__") and obj and \
+                all(isinstance(k, int) and not isinstance(k, bool) for k in obj) and \
+                all(isinstance(v, (int, SInt)) and not isinstance(v, bool) for v in obj.values()):
+            # small integer table: an ite chain (no fork)
+            default = args[1] if len(args) > 1 else None
+            member = z3.Or(*[key.t == k for k in obj])
+            if name == "__getitem__" or not isinstance(default, (int, SInt)) or isinstance(default, bool):
+                if not I.branch(SBool(member)):
+                    if name == "__getitem__":
+                        raise Raised(KeyError("<sym>"))
+                    return default
+                t = None
+            else:
+                t = lift_int(default)
+            for k, v in reversed(list(obj.items())):
+                t = lift_int(v) if t is None else z3.If(key.t == k, lift_int(v), t)
+            return SInt(t)
         if is_sym(key):
             raise Unsupported(f"{type(obj).__name__}.{name} with symbolic key")
         args = [key] + list(args[1:])
